@@ -666,7 +666,7 @@ func callsChainAPI(p *eng.Prog, f *eng.Func) bool {
 	info := f.Pkg.TypesInfo
 	ast.Inspect(f.Decl.Body, func(n ast.Node) bool {
 		if c, ok := n.(*ast.CallExpr); ok {
-			if o := eng.CalleeOf(info, c); o != nil && (o.Name() == "FindConversionChain" || o.Name() == "SearchPathForRule") {
+			if o := eng.CalleeOf(info, c); o != nil && (nameOf(o) == "FindConversionChain" || nameOf(o) == "SearchPathForRule") {
 				found = true
 			}
 		}
